@@ -80,6 +80,7 @@ type ledgerOp struct {
 	Kind  string `json:"kind,omitempty"`  // stream corruption kind
 	Times int    `json:"times,omitempty"` // repetition
 	At    int    `json:"at,omitempty"`    // truncate: start racing balance queries at this inspection of the context
+	Cancel int   `json:"cancel,omitempty"` // truncate: the context is cancelled at this inspection (shutdown in the middle of a truncation)
 }
 
 type behaviour struct {
@@ -754,6 +755,9 @@ func (w *world) opTruncate(op ledgerOp) {
 			time.Sleep(3 * time.Millisecond)
 		}}
 	}
+	if op.Cancel > 0 {
+		ctx = newCountCtx(op.Cancel)
+	}
 	go func() {
 		defer close(done)
 		defer func() { pv = recover() }()
@@ -770,6 +774,13 @@ func (w *world) opTruncate(op ledgerOp) {
 		res = "panic"
 	} else if err != nil {
 		res = "error"
+	}
+	if op.Cancel > 0 {
+		// the node's root context is gone: the process is on its way out, the book takes no further operation
+		w.emitSt(event{"a": "TruncateCancelled", "n": op.N, "res": res, "k": op.Cancel}, n)
+		n.ab.VerifClose()
+		delete(w.nodes, op.N)
+		return
 	}
 	w.emitSt(event{"a": "Truncate", "n": op.N, "res": res}, n)
 	if op.At > 0 {
